@@ -195,6 +195,16 @@ class Lin:
         args = [k, seed, bool(affine)] + ([1.0, [float(x) for x in scales]] if scales else [])
         self.func = OPS.make_fn({'$fn': 'model', 'id': 'linear', 'args': args}, lambda w: w)
 
+    def fold(self):
+        """folded data: the likelihood folds the model, and folding is linear, so the closed forms hold with folded basis spectra"""
+        import dadi
+
+        def fo(b):
+            f = dadi.Spectrum(b, mask_corners=False).fold()
+            return np.where(np.ma.getmaskarray(f), 0.0, np.ma.getdata(f))
+        self.B0 = fo(self.B0)
+        self.B = [fo(b) for b in self.B]
+
     def unmasked(self, data):
         import dadi
         m = np.ma.getmaskarray(data) | np.ma.getmaskarray(dadi.Spectrum(np.ones_like(self.B0)))
@@ -313,7 +323,7 @@ def _gate(R1, R2, Rc, eps, conds, central, R4=None, noise=None):
 
 
 def closed_form(fn, k, seed, ns, p0, multinom, eps, dseed, nboot, log=False, nested=None, full=None, adjusts=None, perm=None, pts=(10,),
-                pcont='list', dmask=0, bcont='spectrum', acont='list', scales=None):
+                pcont='list', dmask=0, bcont='spectrum', acont='list', scales=None, fold=False):
     """fn in FIM, GIM, LRT, Wald, score.  Calls dadi at eps and 2*eps, compares with the closed form."""
     import dadi
     from dadi import Godambe
@@ -330,6 +340,10 @@ def closed_form(fn, k, seed, ns, p0, multinom, eps, dseed, nboot, log=False, nes
             data.mask.flat[i] = True
     boots = [dadi.Spectrum(model * (1 + 0.25 * np.random.RandomState(dseed * 100 + b).standard_normal(model.shape)).clip(0.2, 4) * (3.0 if multinom else 1.0))
              for b in range(nboot)]
+    if fold:
+        data = data.fold()
+        boots = [b.fold() for b in boots]
+        lin.fold()
     if perm:
         boots_call = [boots[i] for i in perm]
     else:
@@ -387,6 +401,9 @@ def closed_form(fn, k, seed, ns, p0, multinom, eps, dseed, nboot, log=False, nes
     if fn != 'FIM':
         conds += float(np.linalg.cond(J))
         condn += _ncond(J)
+    if not np.isfinite(condn) or condn > 1e12:
+        # exactly / numerically singular information (e.g. folded data with fewer informative entries than parameters)
+        return {'ok': True, 'skipped': 'ill-conditioned closed form (scaled cond %.3g)' % condn, 'what': 'closed form ' + fn}
     if fn == 'FIM':
         Rc = np.concatenate([np.sqrt(np.diag(np.linalg.inv(H))), np.ravel(H)])
     elif fn == 'GIM':
